@@ -117,6 +117,7 @@ type Path struct {
 	pools     map[*value][]poolItem // sync.Pool contents
 	pendingGo []pendingGoroutine   // goroutines started by the code under test, not scheduled
 	addrIDs   map[*value]int       // printed addresses
+	mustTerminate string           // site named by sv.MustTerminate
 	obs       []Obs
 	sites     map[string]int
 	cands     []Candidate
